@@ -60,6 +60,7 @@ func cmdFunc(args []string) {
 	verbose := fs.Bool("v", false, "verbose")
 	own := fs.Bool("own", false, "ownership discipline (C17)")
 	narrow := fs.Bool("narrow", false, "narrow obligations (C13)")
+	absc := fs.Bool("absconc", false, "ignore go statements, opaque channels")
 	fs.Parse(args)
 	w := load(*dir)
 	pat := fs.Arg(0)
@@ -83,7 +84,7 @@ func cmdFunc(args []string) {
 				ct = nil
 			}
 			par <- struct{}{}
-			res := w.GenVC(fn, ct, func(e *vc.Engine) { e.OwnCheck = *own; e.CheckNarrow = *narrow })
+			res := w.GenVC(fn, ct, func(e *vc.Engine) { e.OwnCheck = *own; e.CheckNarrow = *narrow; e.AbstractConc = *absc })
 			<-par
 			var out strings.Builder
 			if res.Rejected != "" {
